@@ -331,6 +331,20 @@ def pollReader (F : Framing σ) (s : State σ) (m : Nat) : ReadRes × State σ :
   let (r, st', rb', rx') := readerPoll F (readerFuel k.rx) s.pst s.rb k.rx
   (r, setMock { s with pst := st', rb := rb' } m { k with rx := rx' })
 
+/-- `FramedReader::discard_buffered_frames`: parse and drop every complete frame that is already
+    in the read buffer, without reading from the transport; `Ok(None)` ends the loop, a parser
+    error resets the parser and is returned -/
+def discardBuffered (F : Framing σ) : Nat → σ → RB → Option Res × σ × RB
+  | 0, st, rb => (none, st, rb)
+  | fuel + 1, st, rb =>
+    match F.parse st rb with
+    | (.frame _, st', rb') => discardBuffered F fuel st' rb'
+    | (.none, st', rb') => (none, st', rb')
+    | (.err e, _, rb') => (some (frameErrRes e), F.init, rb')
+
+/-- more than the number of frames the buffer can hold -/
+def discardFuel (rb : RB) : Nat := rb.data.length + 2
+
 /-! ## the task -/
 
 /-- bookkeeping of `run_one_request` once the request has finished with `res` -/
@@ -348,20 +362,25 @@ def afterRequest (s : State σ) (m : Nat) (res : Res) : State σ :=
 def finish (s : State σ) (m : Nat) (r : Req) (res : Res) : State σ :=
   afterRequest (complete s r res) m res
 
-/-- `run_one_request` up to the point where it waits for the reply: draw a tx id, format, write -/
+/-- `run_one_request` up to the point where it waits for the reply: draw a tx id, format, drop what
+    is already buffered, write -/
 def startRequest (F : Framing σ) (s : State σ) (m : Nat) (r : Req) : State σ :=
   let tx := s.tx
   let s := { s with tx := nextTx s.tx, dequeued := (r.rid, tx) :: s.dequeued }
   match encodeRequest r.req with
   | .error e => finish s m r (.badReq e)
   | .ok pdu =>
-    let k := getMock s m
-    if k.wErr then finish (setMock s m { k with wErr := false }) m r (.io .pipe)
-    else
-      let bytes := F.format tx r.unit pdu
-      let s := { s with sent := (r.rid, tx, bytes) :: s.sent }
-      let s := if isLatest s m then emit s (.tx bytes) else s
-      { s with pos := .inflight m r tx (s.now + r.timeout) }
+    match discardBuffered F (discardFuel s.rb) s.pst s.rb with
+    | (some res, st', rb') => finish { s with pst := st', rb := rb' } m r res
+    | (none, st', rb') =>
+      let s := { s with pst := st', rb := rb' }
+      let k := getMock s m
+      if k.wErr then finish (setMock s m { k with wErr := false }) m r (.io .pipe)
+      else
+        let bytes := F.format tx r.unit pdu
+        let s := { s with sent := (r.rid, tx, bytes) :: s.sent }
+        let s := if isLatest s m then emit s (.tx bytes) else s
+        { s with pos := .inflight m r tx (s.now + r.timeout) }
 
 /-- `run_cmd` -/
 def runCmd (F : Framing σ) (s : State σ) (m : Nat) : Cmd → State σ
